@@ -7,5 +7,5 @@ sed -i "$e" "$f"
 git diff --stat | tail -1
 cd /verif
 for id in "$@"; do ./check "$id" quick 2>&1 | grep -E 'VIOLATION|signature|HELD|VIOLATED|MACHINERY' | head -8; done
-git -C /repo checkout -- .
+git -C /repo checkout -- . ; git -C /repo clean -fdq
 rm -f /verif/replays/*.json
